@@ -5,7 +5,7 @@ This is used by :class:`graphtage.MultiSetNode` and :class:`graphtage.DictNode`,
 
 """
 
-from typing import Iterator, List
+from typing import Iterator, List, Tuple
 
 import graphtage
 from .bounds import Range
@@ -13,7 +13,7 @@ from .edits import Insert, Match, Remove
 from .matching import WeightedBipartiteMatcher
 from .sequences import SequenceEdit, SequenceNode
 from .tree import Edit, TreeNode
-from .utils import HashableCounter, largest
+from .utils import HashableCounter
 
 
 class MultiSetEdit(SequenceEdit):
@@ -86,18 +86,27 @@ class MultiSetEdit(SequenceEdit):
     def is_complete(self) -> bool:
         return self._matcher.is_complete()
 
+    def _unmatched(self) -> Tuple[List[TreeNode], List[TreeNode]]:
+        """Returns the nodes that are removed and inserted because the matcher could not pair them"""
+        remove_matched: HashableCounter[TreeNode] = HashableCounter()
+        insert_matched: HashableCounter[TreeNode] = HashableCounter()
+        for (rem, (ins, _)) in self._matcher.matching.items():
+            remove_matched[rem] += 1
+            insert_matched[ins] += 1
+        return (
+            list((self.to_remove - remove_matched).elements()),
+            list((self.to_insert - insert_matched).elements())
+        )
+
     def edits(self) -> Iterator[Edit]:
         yield from self._edits
         yield from self._matched_kvp_edits
-        remove_matched: HashableCounter[TreeNode] = HashableCounter()
-        insert_matched: HashableCounter[TreeNode] = HashableCounter()
-        for (rem, (ins, edit)) in self._matcher.matching.items():
+        for (_, (_, edit)) in self._matcher.matching.items():
             yield edit
-            remove_matched[rem] += 1
-            insert_matched[ins] += 1
-        for rm in (self.to_remove - remove_matched).elements():
+        to_remove, to_insert = self._unmatched()
+        for rm in to_remove:
             yield Remove(to_remove=rm, remove_from=self.from_node)
-        for ins in (self.to_insert - insert_matched).elements():
+        for ins in to_insert:
             yield Insert(to_insert=ins, insert_into=self.from_node)
 
     def tighten_bounds(self) -> bool:
@@ -105,24 +114,44 @@ class MultiSetEdit(SequenceEdit):
         for kvp_edit in self._matched_kvp_edits:
             if kvp_edit.tighten_bounds():
                 return True
-        return self._matcher.tighten_bounds()
+        if self._matcher.tighten_bounds():
+            return True
+        elif not self._matcher.is_complete():
+            # The matcher's bounds can become definitive before it has computed the matching,
+            # but we need the matching to know which nodes are left unmatched
+            initial_bounds = self.bounds()
+            _ = self._matcher.matching
+            new_bounds = self.bounds()
+            return new_bounds.lower_bound > initial_bounds.lower_bound \
+                or new_bounds.upper_bound < initial_bounds.upper_bound
+        else:
+            return False
 
     def bounds(self) -> Range:
         b = self._matcher.bounds()
         for kvp_edit in self._matched_kvp_edits:
             b = b + kvp_edit.bounds()
-        if len(self.to_remove) > len(self.to_insert):
-            for edit in largest(
-                    *(Remove(to_remove=r, remove_from=self.from_node) for r in self.to_remove),
-                    n=len(self.to_remove) - len(self.to_insert),
-                    key=lambda e: e.bounds()
-            ):
-                b = b + edit.bounds()
-        elif len(self.to_remove) < len(self.to_insert):
-            for edit in largest(
-                    *(Insert(to_insert=i, insert_into=self.from_node) for i in self.to_insert),
-                    n=len(self.to_insert) - len(self.to_remove),
-                    key=lambda e: e.bounds()
-            ):
-                b = b + edit.bounds()
-        return b
+        if self._matcher.is_complete():
+            # We know exactly which nodes are left unmatched
+            to_remove, to_insert = self._unmatched()
+            for r in to_remove:
+                b = b + Remove(to_remove=r, remove_from=self.from_node).bounds()
+            for i in to_insert:
+                b = b + Insert(to_insert=i, insert_into=self.from_node).bounds()
+            return b
+        # The matching is not yet known: as many nodes as the sets differ in size will be left unmatched;
+        # at best these are the cheapest ones, and at worst the most expensive ones
+        num_remove = sum(self.to_remove.values())
+        num_insert = sum(self.to_insert.values())
+        if num_remove > num_insert:
+            costs = sorted(
+                Remove(to_remove=r, remove_from=self.from_node).bounds().upper_bound for r in self.to_remove.elements()
+            )
+        elif num_remove < num_insert:
+            costs = sorted(
+                Insert(to_insert=i, insert_into=self.from_node).bounds().upper_bound for i in self.to_insert.elements()
+            )
+        else:
+            return b
+        num_unmatched = abs(num_remove - num_insert)
+        return b + Range(sum(costs[:num_unmatched]), sum(costs[-num_unmatched:]))
